@@ -31,7 +31,7 @@ func ruleSnapOrder() *Rule {
 		ID: "SNAP-ORDER",
 		Text: "In (*Raft).takeSnapshot and (*Raft).InstallSnapshot, on every path: SnapshotFile.Close of the snapshot being written (the result of SnapshotStorage.NewSnapshotFile, or Raft.snapshot) with a nil result " +
 			"(its failure ends in a no-return call) precedes every store to Raft.lastIncludedIndex / Raft.lastIncludedTerm, and both stores precede every Log.Compact / Log.DiscardEntries.",
-		Floor: 6,
+		Floor: 4,
 		Run: func(p *Program) []Obligation {
 			obs := newObSet("SNAP-ORDER")
 			for _, name := range []string{"(*Raft).takeSnapshot", "(*Raft).InstallSnapshot"} {
@@ -59,16 +59,16 @@ func snapOrder(p *Program, obs *obSet, fname string) {
 		c, _ := callOf(fr, v, 0)
 		return c != nil && calleeName(c.Common()) == "SnapshotStorage.NewSnapshotFile"
 	}
-	closed := func(v *flowVisit) (bool, string) {
+	closed := func(v *flowVisit) (bool, string, []*ssa.Call) {
 		x, ok := stGet(v.St, "C")
 		if !ok {
-			return false, "no SnapshotFile.Close of the snapshot being written precedes it on this path"
+			return false, "no SnapshotFile.Close of the snapshot being written precedes it on this path", nil
 		}
 		site := sites.at(x)
 		if !v.ErrNil(site.fr, site.call) {
-			return false, "the result of " + siteKey(site.fr, site.call) + " is not known to be nil on this path"
+			return false, "the result of " + siteKey(site.fr, site.call) + " is not known to be nil on this path", []*ssa.Call{site.call}
 		}
-		return true, ""
+		return true, "", nil
 	}
 	s.instr = func(v *flowVisit, in ssa.Instruction) (string, bool) {
 		st := v.St
@@ -81,11 +81,11 @@ func snapOrder(p *Program, obs *obSet, fname string) {
 		}
 		if store, fld := storeField(in); store != nil && (fld == lii || fld == lit) {
 			key := "snapshot closed before " + siteKey(v.Fr, in)
-			if ok, why := closed(v); ok {
+			if ok, why, cs := closed(v); ok {
 				obs.ok(key, p.InstrPos(in), "the store is reached only after a successful Close of the snapshot being written")
 			} else {
 				v.Note("%s: store to Raft.%s", p.InstrPos(in), fld.Name())
-				obs.fail(key, p.InstrPos(in), "Raft."+fld.Name()+" is advanced although "+why+": after a crash the node would claim a snapshot that is not on disk", v.Path())
+				obs.failErr(key, p.InstrPos(in), "Raft."+fld.Name()+" is advanced although "+why+": after a crash the node would claim a snapshot that is not on disk", v.Path(), cs)
 			}
 			if fld == lii {
 				return stAdd(st, "I"), false
@@ -96,10 +96,10 @@ func snapOrder(p *Program, obs *obSet, fname string) {
 			trims++
 			key := "snapshot closed and lastIncludedIndex/Term stored before " + siteKey(v.Fr, c)
 			v.Note("%s: %s", p.InstrPos(c), instrLabel(c))
-			ok, why := closed(v)
+			ok, why, cs := closed(v)
 			switch {
 			case !ok:
-				obs.fail(key, p.InstrPos(c), "the log is trimmed although "+why+": a crash leaves a trimmed log with no snapshot", v.Path())
+				obs.failErr(key, p.InstrPos(c), "the log is trimmed although "+why+": a crash leaves a trimmed log with no snapshot", v.Path(), cs)
 			case !stHas(st, "I"):
 				obs.fail(key, p.InstrPos(c), "the log is trimmed on a path with no store to Raft.lastIncludedIndex after the snapshot was closed", v.Path())
 			case !stHas(st, "T"):
@@ -115,6 +115,17 @@ func snapOrder(p *Program, obs *obSet, fname string) {
 	if s.Overflow {
 		obs.undecided("snapshot/trim order in "+fname, p.Pos(fn.Pos()), "path exploration exceeded its bound")
 		return
+	}
+	if in := s.DeferredMatch(func(in ssa.Instruction) bool {
+		if _, fld := storeField(in); fld == lii || fld == lit {
+			return true
+		}
+		if c := invokeNamed(in, "SnapshotFile.Close"); c != nil && written(nil, c.Common().Value) {
+			return true
+		}
+		return invokeNamed(in, "Log.Compact", "Log.DiscardEntries") != nil
+	}); in != nil {
+		obs.undecided("snapshot/trim order in "+fname, p.InstrPos(in), "a deferred function, or a helper beyond the inlining depth, closes the snapshot being written, advances lastIncludedIndex/Term or trims the log; the rule does not order those")
 	}
 	if trims == 0 {
 		obs.lost("Log.Compact / Log.DiscardEntries reachable from " + fname)
@@ -276,7 +287,7 @@ func restoreCover(p *Program, obs *obSet) {
 			case !has:
 				obs.fail(key, pos, "nil is returned on a path that has not called "+n, v.Path())
 			case !v.ErrNil(sites.at(x).fr, sites.at(x).call):
-				obs.fail(key, pos, "nil is returned although the result of "+n+" is not known to be nil", v.Path())
+				obs.failErr(key, pos, "nil is returned although the result of "+n+" is not known to be nil", v.Path(), []*ssa.Call{sites.at(x).call})
 			default:
 				obs.ok(key, pos, n+" is called and its error known nil on every path to the nil return")
 			}
